@@ -72,16 +72,16 @@ func TestFixtures(t *testing.T) {
 	}
 	// frames the specification rules out
 	for _, f := range [][]byte{
-		{0x40, 0x07, 0, 1, 4, 0x1f, 0, 1, 'x'},       // reason code missing before properties
-		{0x42, 0x02, 0, 1},                             // reserved flags
-		{0x62, 0x03, 0, 1},                             // short
-		{0x20, 0x03, 0, 0, 0x80},                       // varint cut
-		{0x20, 0x05, 0, 0, 2, 0x25, 2},                 // boolean 2
-		{0x20, 0x05, 0, 0, 2, 0x30, 0},                 // undefined identifier
-		{0x20, 0x09, 0, 0, 6, 0x21, 0, 1, 0x21, 0, 2},  // duplicate singleton
-		{0x20, 0x06, 0, 0, 3, 0x23, 0, 1},              // topic alias not allowed in CONNACK
-		{0xe0, 0x81, 0x00, 0x00},                       // non-minimal remaining length
-		{0x30, 0x03, 0, 1, 'a'},                        // PUBLISH without property length
+		{0x40, 0x07, 0, 1, 4, 0x1f, 0, 1, 'x'},        // reason code missing before properties
+		{0x42, 0x02, 0, 1},                            // reserved flags
+		{0x62, 0x03, 0, 1},                            // short
+		{0x20, 0x03, 0, 0, 0x80},                      // varint cut
+		{0x20, 0x05, 0, 0, 2, 0x25, 2},                // boolean 2
+		{0x20, 0x05, 0, 0, 2, 0x30, 0},                // undefined identifier
+		{0x20, 0x09, 0, 0, 6, 0x21, 0, 1, 0x21, 0, 2}, // duplicate singleton
+		{0x20, 0x06, 0, 0, 3, 0x23, 0, 1},             // topic alias not allowed in CONNACK
+		{0xe0, 0x81, 0x00, 0x00},                      // non-minimal remaining length
+		{0x30, 0x03, 0, 1, 'a'},                       // PUBLISH without property length
 	} {
 		if _, err := Decode(f, false); err == nil {
 			t.Fatalf("%x accepted", f)
